@@ -191,37 +191,38 @@ func (h H) leaderReleaseCleansUp(rule string, which ...string) {
 		h.C.Check(rule+" release-answers-whole-queue", "(*leader).release queue walk (exists)", found, h.fpos(fn), "no walk from neHead along .next to nil found")
 	}
 	if has("closed-error") {
-		// every phi that can carry ErrServerClosed takes it exactly on the isClosed edge
+		// every reply argument that can be ErrServerClosed takes that value
+		// exactly on the isClosed edge (looking through phis and new helpers)
 		n := 0
-		core.Instrs(fn, func(in ssa.Instruction) {
-			phi, ok := in.(*ssa.Phi)
-			if !ok {
-				return
-			}
-			for i, ed := range phi.Edges {
-				if fi.Sym(ed).String() != "global:ErrServerClosed" {
+		isClosedTrue := func(a core.Atom) bool { return a.Op == "true" && strings.HasPrefix(a.L, "(*Raft).isClosed(") }
+		for _, spec := range []string{"raft:(*task).reply", "raft:(*transfer).reply"} {
+			callee := h.fn(spec)
+			for _, c := range h.P.CallsTo(fn, callee) {
+				args := c.Common().Args
+				if len(args) < 2 {
 					continue
 				}
-				n++
-				pred := phi.Block().Preds[i]
-				gated := false
-				// pred is reached only through the true edge of isClosed()
-				for _, pp := range pred.Preds {
-					for s, succ := range pp.Succs {
-						if succ == pred {
-							if a, ok := fi.EdgeAtom(core.Edge{From: pp, Succ: s}); ok && a.Op == "true" && strings.HasPrefix(a.L, "(*Raft).isClosed(") {
-								gated = true
-							}
-						}
+				for _, src := range h.valueSources(args[1], c.(ssa.Instruction)) {
+					if h.P.Info(src.At.Parent()).Sym(src.Val).String() != "global:ErrServerClosed" {
+						continue
 					}
+					n++
+					r := h.sourceGated(src, isClosedTrue)
+					h.C.Check(rule+" server-closed-iff-closing", fmt.Sprintf("(*leader).release ErrServerClosed#%d", n), r.OK, h.pos(src.At), "pending work is answered with ErrServerClosed on a path where the node is not known to be closing: "+r.Witness)
 				}
-				if len(pred.Preds) != 1 {
-					gated = false
-				}
-				h.C.Check(rule+" server-closed-iff-closing", fmt.Sprintf("(*leader).release ErrServerClosed#%d", n), gated, h.pos(phi), "pending work is answered with ErrServerClosed on a path where the node is not known to be closing (or the other way round)")
 			}
-		})
+		}
 		h.C.Floor(rule+" (ErrServerClosed uses in leader.release)", n, 2)
+		// and conversely: the not-closing answers are not given while closing
+		notClosing := func(a core.Atom) bool { return a.Op == "false" && strings.HasPrefix(a.L, "(*Raft).isClosed(") }
+		for _, c := range h.P.CallsTo(fn, h.fn("raft:(*task).reply")) {
+			for _, src := range h.valueSources(c.Common().Args[1], c.(ssa.Instruction)) {
+				if strings.HasPrefix(h.P.Info(src.At.Parent()).Sym(src.Val).String(), "notLeaderError(") {
+					r := h.sourceGated(src, notClosing)
+					h.C.Check(rule+" server-closed-iff-closing", "(*leader).release NotLeaderError", r.OK, h.pos(src.At), "pending entries are answered with NotLeaderError although the node may be closing (shutdown must complete pending tasks with ErrServerClosed): "+r.Witness)
+				}
+			}
+		}
 	}
 }
 
@@ -272,7 +273,13 @@ func (h H) queueDiscipline(rule string) {
 		case a == "leader.neHead" && strings.HasPrefix(v, "phi("):
 			move = true
 		case a == "leader.neTail" && v == "nil":
-			r := fi.MustCross(in, func(at core.Atom) bool { return at.Implies(core.MkAtom("leader.neHead", "==", "nil")) })
+			r := fi.MustCross(in, func(at core.Atom) bool {
+				if at.Implies(core.MkAtom("leader.neHead", "==", "nil")) {
+					return true
+				}
+				// or the same test on the value that was just stored into neHead (the loop cursor)
+				return at.Op == "==" && at.R == "nil" && strings.HasPrefix(at.L, "phi(") && strings.Contains(at.L, "leader.neHead")
+			})
 			tail = r.OK
 		}
 	})
@@ -374,13 +381,26 @@ func (h H) configActionProgress(rule string, which string) {
 	case "effect":
 		// forward walk: (modified?, set of action constants the path has excluded)
 		actions := h.constsOfType("Action")
-		isMod := func(in ssa.Instruction) bool {
+		var isMod func(in ssa.Instruction) bool
+		isMod = func(in ssa.Instruction) bool {
+			ifi := h.P.Info(in.Parent())
 			if mu, ok := in.(*ssa.MapUpdate); ok {
-				return strings.HasSuffix(fi.Sym(mu.Map).String(), ".Nodes")
+				return strings.HasSuffix(ifi.Sym(mu.Map).String(), ".Nodes")
 			}
 			if cc, ok := in.(*ssa.Call); ok {
 				if b, isB := cc.Common().Value.(*ssa.Builtin); isB && b.Name() == "delete" {
-					return strings.HasSuffix(fi.Sym(cc.Common().Args[0]).String(), ".Nodes")
+					return strings.HasSuffix(ifi.Sym(cc.Common().Args[0]).String(), ".Nodes")
+				}
+				// a helper no rule knows by name that modifies a Nodes map on every path
+				if callee := cc.Common().StaticCallee(); callee != nil && h.P.IsNew(callee) && callee.Blocks != nil && in.Parent() == fn {
+					all := true
+					for _, r := range core.Returns(callee) {
+						res := h.P.Info(callee).MustCrossOrPass(r, func(core.Atom) bool { return false }, nil, func(x ssa.Instruction) bool { return x.Parent() == callee && isMod(x) })
+						if !res.OK {
+							all = false
+						}
+					}
+					return all && len(core.Returns(callee)) > 0
 				}
 			}
 			return false
@@ -441,10 +461,11 @@ func (h H) configActionProgress(rule string, which string) {
 		// Demote clears the action it performed
 		for _, spec := range []string{"raft:(*leader).checkConfigAction", "raft:(*leader).checkConfigActions"} {
 			f := h.fn(spec)
-			ffi := h.P.Info(f)
 			demote := h.constStr("raft:Demote")
 			nSites := 0
-			core.Instrs(f, func(in ssa.Instruction) {
+			h.P.InstrsScope(f, func(in ssa.Instruction) {
+				ffi := h.P.Info(in.Parent())
+				f := in.Parent()
 				st, ok := in.(*ssa.Store)
 				if !ok || !strings.HasSuffix(ffi.Sym(st.Addr).String(), ".Voter") || ffi.Sym(st.Val).String() != "false" {
 					return
@@ -1036,11 +1057,51 @@ func (h H) replicationLearnsConfig(rule string) {
 	h.C.Floor(rule+" (notifyFlr in storeEntry)", m, 1)
 	nfi := h.P.Info(nf)
 	okCfg := false
-	core.Instrs(nf, func(in ssa.Instruction) {
-		if st, ok := in.(*ssa.Store); ok && strings.HasSuffix(nfi.Sym(st.Addr).String(), ".config") {
-			r := nfi.MustCross(in, func(a core.Atom) bool { return a.Op == "true" && a.L == "$1" })
-			okCfg = r.OK
+	// the update's config field receives a private copy of the latest
+	// configuration exactly when includeConfig ($1) is set: either the store
+	// itself is under that test, or the stored value was chosen under it
+	has := func(facts []core.Atom, op string) bool {
+		for _, a := range facts {
+			if a.L == "$1" && a.Op == op {
+				return true
+			}
 		}
+		return false
+	}
+	isCopy := func(v ssa.Value) bool {
+		al, ok := v.(*ssa.Alloc)
+		if !ok {
+			return false
+		}
+		n, good := 0, false
+		for _, r := range *al.Referrers() {
+			if st, ok := r.(*ssa.Store); ok && st.Addr == ssa.Value(al) {
+				n++
+				good = nfi.Sym(st.Val).String() == "leader.Raft.storage.configs.Latest"
+			}
+		}
+		return n == 1 && good
+	}
+	core.Instrs(nf, func(in ssa.Instruction) {
+		st, ok := in.(*ssa.Store)
+		if !ok || !strings.HasSuffix(nfi.Sym(st.Addr).String(), ".config") {
+			return
+		}
+		if phi, isPhi := st.Val.(*ssa.Phi); isPhi {
+			good := len(phi.Edges) > 0
+			for i, e := range phi.Edges {
+				facts := nfi.FactsInto(phi.Block(), i)
+				switch {
+				case isNilConst(e):
+					good = good && has(facts, "false")
+				default:
+					good = good && has(facts, "true") && isCopy(e)
+				}
+			}
+			okCfg = good
+			return
+		}
+		okCfg = has(nfi.FactsAt(in), "true") && isCopy(st.Val)
 	})
 	h.C.Check(rule+" config-attached-when-changed", "(*leader).notifyFlr", okCfg, h.fpos(nf), "notifyFlr(includeConfig=true) must attach the latest configuration to the update")
 }
